@@ -26,6 +26,7 @@ fn fwd(op: &Op, _ctx: &dyn Context, operands: &mut dyn CoordinateSet) -> usize {
 
     for i in 0..length {
         let (mut lam, phi) = operands.xy(i);
+        let nan_in = lam.is_nan() || phi.is_nan();
         lam -= lon_0;
         // The cone is cut open opposite of the central meridian: A longitude
         // given on the far side of the cut (e.g. -180 where lon_0 = 10) is
@@ -49,6 +50,15 @@ fn fwd(op: &Op, _ctx: &dyn Context, operands: &mut dyn CoordinateSet) -> usize {
         let sc = (lam * n).sin_cos();
         let x = a * k_0 * rho * sc.0 + x_0;
         let y = a * k_0 * (rho0 - rho * sc.1) + y_0;
+
+        // Beyond the poles (a negative number raised to the n'th power), or with
+        // infinite coordinates, there is no image: Signal that (while a NaN
+        // coordinate just propagates, as everywhere else)
+        if !(x.is_finite() && y.is_finite()) && !nan_in {
+            operands.set_coord(i, &Coor4D::nan());
+            continue;
+        }
+
         operands.set_xy(i, x, y);
         successes += 1;
     }
@@ -96,11 +106,13 @@ fn inv(op: &Op, _ctx: &dyn Context, operands: &mut dyn CoordinateSet) -> usize {
 
         let ts0 = (rho / c).powf(1. / n);
         let lat = crate::math::ancillary::pj_phi2(ts0, e);
-        if lat.is_infinite() || lat.is_nan() {
+        let lon = x.atan2(y) / n + lon_0;
+        // (the longitude is tested as well: with an infinite x, the NaN of a NaN y
+        // drowns in hypot(x, y), and would leave a valid-looking latitude behind)
+        if lat.is_infinite() || lat.is_nan() || lon.is_nan() {
             operands.set_coord(i, &Coor4D::nan());
             continue;
         }
-        let lon = x.atan2(y) / n + lon_0;
         operands.set_xy(i, lon, lat);
         successes += 1;
     }
